@@ -74,10 +74,26 @@ def votes_for(kind, cls, rng):
     raise ValueError(kind)
 
 
+_ROUTE = [0]
+
+
 def make_assertion(kind, con):
     from shangrla.core.Audit import Assertion
     from shangrla.core.NonnegMean import NonnegMean
     kw = dict(test=NonnegMean.alpha_mart, estim=NonnegMean.fixed_alternative_mean)
+    _ROUTE[0] += 1
+    if _ROUTE[0] % 2 == 0:
+        # the documented route: every assertion of the contest from the contest's own description
+        if kind == "nen":
+            con.assertion_json = [{"winner": "W", "loser": "L", "assertion_type": "IRV_ELIMINATION", "already_eliminated": ["Y"]}]
+        elif kind == "neb":
+            con.assertion_json = [{"winner": "W", "loser": "L", "assertion_type": "WINNER_ONLY", "already_eliminated": ""}]
+        Assertion.make_all_assertions({"con": con})
+        made = con.assertions
+        if kind == "plur":
+            con._sibling = made["W v X"]
+            return made["W v L"]
+        return next(iter(made.values()))
     if kind == "plur":      # the pairwise assertions of a contest are built in one call
         both = Assertion.make_plurality_assertions(contest=con, winner=["W"], loser=["L", "X"], **kw)
         con._sibling = both["W v X"]
